@@ -10,6 +10,8 @@ def make(rng, transition_only=False, n_states=None, n_events=None, limits='mixed
                               transition_only=transition_only)
     nS = len(spec['states'])
     x0 = rng.randint(3, 25, size=nS).astype(float)
+    if nS >= 2 and rng.uniform() < 0.4:
+        x0[int(rng.randint(nS))] = 0.0        # an empty compartment: events fed by it have rate exactly 0 while others fire
     lims = []          # None = not declared (the model's default (0, None) applies)
     for i in range(nS):
         kind = {'mixed': int(rng.randint(4)), 'none': 0}[limits]
